@@ -39,84 +39,134 @@ func c17SetLoop(p *an.Prog, r *an.R) {
 	if !r.Anchor(d != nil && tomb != nil && idF != nil, "index.setTombstone / Repository.Tombstone / Repository.ID") {
 		return
 	}
-	info := d.Pkg.TypesInfo
 	fname := an.FuncName(f)
-	var idParam, boolParam types.Object
-	for _, fl := range d.Decl.Type.Params.List {
-		for _, nm := range fl.Names {
-			o := info.ObjectOf(nm)
-			switch o.Type().String() {
-			case "uint32":
-				idParam = o
-			case "bool":
-				boolParam = o
-			}
-		}
-	}
-	if !r.Anchor(idParam != nil && boolParam != nil, fname+"/id and flag parameters") {
-		return
-	}
-	g := an.NewG(info, d.Decl.Body)
 	n := 0
-	for _, l := range g.Locs(func(ast.Node) bool { return true }) {
-		as, ok := g.Node(l).(*ast.AssignStmt)
-		if !ok || len(as.Lhs) != 1 || len(as.Rhs) != 1 {
-			continue
+	analyse := func(d *an.DeclInfo, viaHelper bool) {
+		info := d.Pkg.TypesInfo
+		var idParam, boolParam types.Object
+		for _, fl := range d.Decl.Type.Params.List {
+			for _, nm := range fl.Names {
+				o := info.ObjectOf(nm)
+				switch o.Type().String() {
+				case "uint32":
+					idParam = o
+				case "bool":
+					boolParam = o
+				}
+			}
 		}
-		se, ok := ast.Unparen(as.Lhs[0]).(*ast.SelectorExpr)
-		if !ok || info.Selections[se] == nil || info.Selections[se].Obj() != tomb {
-			continue
+		if !r.Anchor(idParam != nil && boolParam != nil, fname+"/id and flag parameters") {
+			return
 		}
-		n++
-		key := fname + "/store-Tombstone"
-		// the innermost enclosing loop
-		var loopBody *ast.BlockStmt
-		var loopPos token.Pos
-		ast.Inspect(d.Decl.Body, func(m ast.Node) bool {
-			if m == nil || !(m.Pos() <= as.Pos() && as.End() <= m.End()) {
-				return m == nil || false
+		g := an.NewG(info, d.Decl.Body)
+		for _, l := range g.Locs(func(ast.Node) bool { return true }) {
+			as, ok := g.Node(l).(*ast.AssignStmt)
+			if !ok || len(as.Lhs) != 1 || len(as.Rhs) != 1 {
+				continue
 			}
-			switch x := m.(type) {
-			case *ast.RangeStmt:
-				loopBody, loopPos = x.Body, x.Pos()
-			case *ast.ForStmt:
-				loopBody, loopPos = x.Body, x.Pos()
+			se, ok := ast.Unparen(as.Lhs[0]).(*ast.SelectorExpr)
+			if !ok || info.Selections[se] == nil || info.Selections[se].Obj() != tomb {
+				continue
 			}
-			return true
-		})
-		if loopBody == nil {
-			r.Und("C17.R5", key, as.Pos(), "the flag is not stored inside a loop over the shard's repositories")
-			continue
-		}
-		r.Check(an.UsesObj(info, as.Rhs[0], boolParam), "C17.R5", key+"/value-is-the-parameter", as.Pos(), "stores the requested flag", "the value stored into Tombstone is not the requested flag: set and unset no longer do what they report")
-		guarded := g.GuardedBy(l, func(cond ast.Expr, truth bool) bool {
-			be, ok := ast.Unparen(cond).(*ast.BinaryExpr)
-			if !ok || !((be.Op == token.EQL && truth) || (be.Op == token.NEQ && !truth)) {
-				return false
+			n++
+			key := fname + "/store-Tombstone"
+			// the innermost enclosing loop
+			var loopBody *ast.BlockStmt
+			var loopPos token.Pos
+			ast.Inspect(d.Decl.Body, func(m ast.Node) bool {
+				if m == nil || !(m.Pos() <= as.Pos() && as.End() <= m.End()) {
+					return m == nil || false
+				}
+				switch x := m.(type) {
+				case *ast.RangeStmt:
+					loopBody, loopPos = x.Body, x.Pos()
+				case *ast.ForStmt:
+					loopBody, loopPos = x.Body, x.Pos()
+				}
+				return true
+			})
+			if loopBody == nil {
+				r.Und("C17.R5", key, as.Pos(), "the flag is not stored inside a loop over the shard's repositories")
+				continue
 			}
-			isID := func(e ast.Expr) bool {
-				s2, ok := ast.Unparen(e).(*ast.SelectorExpr)
-				return ok && info.Selections[s2] != nil && info.Selections[s2].Obj() == idF && sameExpr(s2.X, se.X)
-			}
-			isParam := func(e ast.Expr) bool { return an.UsesObj(info, astStripConv(info, e), idParam) }
-			return (isID(be.X) && isParam(be.Y)) || (isID(be.Y) && isParam(be.X))
-		}, nil)
-		r.Check(guarded, "C17.R5", key+"/only-for-the-requested-id", as.Pos(), "only under <record>.ID == <id parameter>", "the Tombstone flag is stored for a record whose ID was not compared equal to the requested id: setting or clearing a tombstone changes other repositories of the compound shard")
-		early := false
-		ast.Inspect(loopBody, func(m ast.Node) bool {
-			switch x := m.(type) {
-			case *ast.FuncLit:
-				return false
-			case *ast.ReturnStmt:
-				early = true
-			case *ast.BranchStmt:
-				if x.Tok == token.BREAK || x.Tok == token.GOTO {
+			r.Check(an.UsesObj(info, as.Rhs[0], boolParam), "C17.R5", key+"/value-is-the-parameter", as.Pos(), "stores the requested flag", "the value stored into Tombstone is not the requested flag: set and unset no longer do what they report")
+			guarded := g.GuardedBy(l, func(cond ast.Expr, truth bool) bool {
+				be, ok := ast.Unparen(cond).(*ast.BinaryExpr)
+				if !ok || !((be.Op == token.EQL && truth) || (be.Op == token.NEQ && !truth)) {
+					return false
+				}
+				isID := func(e ast.Expr) bool {
+					s2, ok := ast.Unparen(e).(*ast.SelectorExpr)
+					return ok && info.Selections[s2] != nil && info.Selections[s2].Obj() == idF && sameExpr(s2.X, se.X)
+				}
+				isParam := func(e ast.Expr) bool { return an.UsesObj(info, astStripConv(info, e), idParam) }
+				return (isID(be.X) && isParam(be.Y)) || (isID(be.Y) && isParam(be.X))
+			}, nil)
+			r.Check(guarded, "C17.R5", key+"/only-for-the-requested-id", as.Pos(), "only under <record>.ID == <id parameter>", "the Tombstone flag is stored for a record whose ID was not compared equal to the requested id: setting or clearing a tombstone changes other repositories of the compound shard")
+			early := false
+			ast.Inspect(loopBody, func(m ast.Node) bool {
+				switch x := m.(type) {
+				case *ast.FuncLit:
+					return false
+				case *ast.ReturnStmt:
 					early = true
+				case *ast.BranchStmt:
+					if x.Tok == token.BREAK || x.Tok == token.GOTO {
+						early = true
+					}
+				}
+				return true
+			})
+			r.Check(!early, "C17.R5", key+"/loop-visits-every-record", loopPos, "the loop over the shard's repositories runs to the end", "the loop over the shard's repositories can stop early (break/return): when a compound shard holds the id twice (the repository was renamed and both generations were merged into one shard) only the first record is tombstoned, the other stays searchable although the operation reported success")
+		}
+	}
+	hasStore := func(x *an.DeclInfo) bool {
+		hit := false
+		ast.Inspect(x.Decl.Body, func(m ast.Node) bool {
+			if as, ok := m.(*ast.AssignStmt); ok && len(as.Lhs) == 1 {
+				if se, ok := ast.Unparen(as.Lhs[0]).(*ast.SelectorExpr); ok && x.Pkg.TypesInfo.Selections[se] != nil && x.Pkg.TypesInfo.Selections[se].Obj() == tomb {
+					hit = true
 				}
 			}
 			return true
 		})
-		r.Check(!early, "C17.R5", key+"/loop-visits-every-record", loopPos, "the loop over the shard's repositories runs to the end", "the loop over the shard's repositories can stop early (break/return): when a compound shard holds the id twice (the repository was renamed and both generations were merged into one shard) only the first record is tombstoned, the other stays searchable although the operation reported success")
+		return hit
+	}
+	for _, x := range calleeDecls(p, d) {
+		if !hasStore(x) {
+			continue
+		}
+		if x != d {
+			// the loop was moved into a helper: it must receive setTombstone's own id and flag
+			hobj, _ := d.Pkg.TypesInfo.Defs[x.Decl.Name].(*types.Func)
+			passes := false
+			var dID, dFlag types.Object
+			for _, fl := range d.Decl.Type.Params.List {
+				for _, nm := range fl.Names {
+					o := d.Pkg.TypesInfo.ObjectOf(nm)
+					switch o.Type().String() {
+					case "uint32":
+						dID = o
+					case "bool":
+						dFlag = o
+					}
+				}
+			}
+			for _, c := range an.CallsTo(d.Pkg.TypesInfo, d.Decl.Body, false, hobj) {
+				gotID, gotFlag := false, false
+				for _, a := range c.Args {
+					if an.UsesObj(d.Pkg.TypesInfo, a, dID) {
+						gotID = true
+					}
+					if an.UsesObj(d.Pkg.TypesInfo, a, dFlag) {
+						gotFlag = true
+					}
+				}
+				passes = gotID && gotFlag
+			}
+			r.Check(passes, "C17.R5", fname+"/helper-receives-id-and-flag", x.Decl.Pos(), "the helper that flags the records is called with the requested id and flag", "the helper that stores the Tombstone flag is not called with setTombstone's own id and flag")
+		}
+		analyse(x, x != d)
 	}
 	r.Floor("C17.R5.tombstone-stores", 1, n)
 }
